@@ -445,6 +445,8 @@ func (c *Ctx) checkRecurrences() {
 		}
 	}
 	run.Floor("recurrences", 7)
+	c.checkStepSpecs(stepSpecs)
+	run.Floor("selection_rules", 1)
 }
 
 // stageLoopMachine: the guarded commands of one iteration of the steady-state loop of a
@@ -535,4 +537,639 @@ func pureExprs(info *types.Info, es []ast.Expr) bool {
 		})
 	}
 	return pure
+}
+
+// ---------------------------------------------------------------------------
+// Multi-state selection rules (SuperTrend): the documented step written as conditional
+// expressions, compared with the closure on every truth assignment of the comparisons involved.
+
+type stepSpec struct {
+	Site    string            // "volatility.(*SuperTrend).Compute"
+	Callee  string            // the helper the closure is passed to
+	Params  []string          // spec names of the inputs, in order
+	State   []string          // spec names of the remembered values
+	Hint    map[string]string // spec state name -> name of the captured variable (tried first)
+	Bool    map[string]bool   // which state values are truth values
+	Enum    map[string][]string // inputs ranging over named constants (enumerated, not compared by sign)
+	Rule    string              // rule name in reports
+	Let     [][2]string
+	Updates map[string]string
+	Out     string
+	Doc     string
+}
+
+var stepSpecs = []stepSpec{
+	{Site: "volatility.(*SuperTrend).Compute", Callee: "Operate3",
+		Params: []string{"median", "atr", "c"},
+		State:  []string{"first", "up", "pc", "fu", "fl"},
+		Hint:   map[string]string{"first": "first", "up": "upTrend", "pc": "previousClosing", "fu": "finalUpperBand", "fl": "finalLowerBand"},
+		Bool:   map[string]bool{"first": true, "up": true},
+		Let: [][2]string{{"BU", "(median + atr)"}, {"BL", "(median - atr)"},
+			{"FU", "ite(BU < fu || pc > fu, BU, fu)"}, {"FL", "ite(BL > fl || pc < fl, BL, fl)"}},
+		Updates: map[string]string{
+			"first": "false",
+			"fu":    "ite(first, BU, FU)",
+			"fl":    "ite(first, BL, FL)",
+			"pc":    "c",
+			"up":    "ite(first, up, ite(up, c <= FU, !(c >= FL)))",
+		},
+		Out: "ite(first, BL, ite(up, ite(c <= FU, FU, FL), ite(c >= FL, FL, FU)))",
+		Doc: "final bands tighten unless the previous close broke them; SuperTrend follows the upper band while close <= it (up-trend), the lower band while close >= it, and flips otherwise; the first value is the lower band"},
+}
+
+type truth struct {
+	sg    map[string]int
+	bools map[string]bool
+}
+
+// evalB evaluates a condition under a truth assignment (comparisons by sign, plain truth values by name).
+func evalB(e sym.Expr, t truth) (bool, bool) {
+	switch x := e.(type) {
+	case sym.Var:
+		switch x.Name {
+		case "#true":
+			return true, true
+		case "#false":
+			return false, true
+		}
+		v, ok := t.bools[x.Name]
+		return v, ok
+	case sym.Cmp:
+		if v, isConst := constCmp(x); isConst {
+			return v, true
+		}
+		return evalCond(x, t.sg)
+	case sym.Logic:
+		switch x.Op {
+		case "!":
+			v, ok := evalB(x.Args[0], t)
+			return !v, ok
+		case "&&":
+			for _, a := range x.Args {
+				v, ok := evalB(a, t)
+				if !ok {
+					return false, false
+				}
+				if !v {
+					return false, true
+				}
+			}
+			return true, true
+		case "||":
+			for _, a := range x.Args {
+				v, ok := evalB(a, t)
+				if !ok {
+					return false, false
+				}
+				if v {
+					return true, true
+				}
+			}
+			return false, true
+		}
+	case sym.Ite:
+		c, ok := evalB(x.Cond, t)
+		if !ok {
+			return false, false
+		}
+		if c {
+			return evalB(x.A, t)
+		}
+		return evalB(x.B, t)
+	}
+	return false, false
+}
+
+// resolveIte selects the branches of every conditional under a truth assignment.
+func resolveIte(e sym.Expr, t truth) (sym.Expr, bool) {
+	switch x := e.(type) {
+	case sym.Ite:
+		c, ok := evalB(x.Cond, t)
+		if !ok {
+			return nil, false
+		}
+		if c {
+			return resolveIte(x.A, t)
+		}
+		return resolveIte(x.B, t)
+	case sym.Bin:
+		l, ok1 := resolveIte(x.L, t)
+		r, ok2 := resolveIte(x.R, t)
+		return sym.Bin{Op: x.Op, L: l, R: r}, ok1 && ok2
+	case sym.Neg:
+		v, ok := resolveIte(x.X, t)
+		return sym.Neg{X: v}, ok
+	}
+	return e, true
+}
+
+// constCmp decides a comparison between two named constants (#Buy == #Sell).
+func constCmp(x sym.Cmp) (bool, bool) {
+	l, ok1 := x.L.(sym.Var)
+	r, ok2 := x.R.(sym.Var)
+	if !ok1 || !ok2 || !strings.HasPrefix(l.Name, "#") || !strings.HasPrefix(r.Name, "#") {
+		return false, false
+	}
+	switch x.Op {
+	case "==":
+		return l.Name == r.Name, true
+	case "!=":
+		return l.Name != r.Name, true
+	}
+	return false, false
+}
+
+func collectCondKeys(e sym.Expr, keys map[string]bool) {
+	switch x := e.(type) {
+	case sym.Cmp:
+		if _, isConst := constCmp(x); isConst {
+			return
+		}
+		keys[cmpKey(x).key] = true
+	case sym.Logic:
+		for _, a := range x.Args {
+			collectCondKeys(a, keys)
+		}
+	case sym.Ite:
+		collectCondKeys(x.Cond, keys)
+		collectCondKeys(x.A, keys)
+		collectCondKeys(x.B, keys)
+	case sym.Bin:
+		collectCondKeys(x.L, keys)
+		collectCondKeys(x.R, keys)
+	case sym.Neg:
+		collectCondKeys(x.X, keys)
+	}
+}
+
+func permutations(xs []string) [][]string {
+	if len(xs) <= 1 {
+		return [][]string{append([]string{}, xs...)}
+	}
+	var out [][]string
+	for i := range xs {
+		rest := append(append([]string{}, xs[:i]...), xs[i+1:]...)
+		for _, p := range permutations(rest) {
+			out = append(out, append([]string{xs[i]}, p...))
+		}
+	}
+	return out
+}
+
+func (c *Ctx) checkStepSpecs(specs []stepSpec) {
+	run := c.Run
+	for _, sp := range specs {
+		parts := strings.SplitN(sp.Site, ".(*", 2)
+		tn := strings.TrimSuffix(parts[1], ").Compute")
+		fi := c.fn(parts[0], tn, "Compute")
+		if fi == nil {
+			continue
+		}
+		if sp.Rule == "" {
+			sp.Rule = "formula/step"
+		}
+		run.Count("selection_rules", 1)
+		lit := closureArg(fi.Pkg.TypesInfo, fi.Decl, sp.Callee)
+		if lit == nil {
+			c.violate(sp.Rule, sp.Site, "not found", fi.Decl.Pos(), "the closure implementing the documented step could not be located (undecided, fails closed)")
+			continue
+		}
+		m := dtab.FromFuncLit(fi.Pkg.TypesInfo, lit)
+		if len(m.Unsupported) > 0 || len(m.Params) != len(sp.Params) || len(m.State) != len(sp.State) {
+			c.violate(sp.Rule, sp.Site, "shape", lit.Pos(), fmt.Sprintf("the step no longer has %d inputs and %d remembered values in loop-free form (undecided, fails closed): params %v state %v %v", len(sp.Params), len(sp.State), m.Params, m.State, m.Unsupported))
+			continue
+		}
+		// specification
+		env := &specEnv{locals: map[string]bool{}}
+		for _, n := range append(append([]string{}, sp.Params...), sp.State...) {
+			env.locals[n] = true
+		}
+		specUpd := map[string]sym.Expr{}
+		bad := ""
+		for k, v := range sp.Updates {
+			e, err := env.parse(env.expand(v, sp.Let))
+			if err != nil {
+				bad = err.Error()
+				continue
+			}
+			specUpd[k] = liftIte(e)
+		}
+		specOut, err := env.parse(env.expand(sp.Out, sp.Let))
+		if err != nil || bad != "" {
+			run.Break("bad step specification for " + sp.Site + ": " + bad)
+			continue
+		}
+		specOut = liftIte(specOut)
+		// candidate assignments of the captured variables to the specification's names
+		have := map[string]bool{}
+		for _, s := range m.State {
+			have[s] = true
+		}
+		var cands []map[string]string // code name -> spec name
+		hinted := map[string]string{}
+		okHint := true
+		for sn, cn := range sp.Hint {
+			if !have[cn] {
+				okHint = false
+			}
+			hinted[cn] = sn
+		}
+		if okHint && len(hinted) == len(m.State) {
+			cands = append(cands, hinted)
+		} else {
+			for _, perm := range permutations(m.State) {
+				mp := map[string]string{}
+				for i, cn := range perm {
+					mp[cn] = sp.State[i]
+				}
+				cands = append(cands, mp)
+			}
+		}
+		var lastMsg string
+		matched := false
+		for _, mp := range cands {
+			if msg := c.compareStep(m, sp, mp, specUpd, specOut); msg == "" {
+				matched = true
+				break
+			} else {
+				lastMsg = msg
+			}
+		}
+		run.Oblige(matched)
+		run.Sample(map[string]string{"obligation": "one step of " + sp.Site + " = " + sp.Doc, "verdict": fmt.Sprint(matched)})
+		if !matched {
+			c.violate(sp.Rule, sp.Site, short(lastMsg, 140), lit.Pos(), "the step is not the documented one ("+sp.Doc+"): "+lastMsg)
+		}
+	}
+}
+
+// compareStep returns "" when the closure equals the specification under the given naming.
+func (c *Ctx) compareStep(m *dtab.Machine, sp stepSpec, codeToSpec map[string]string, specUpd map[string]sym.Expr, specOut sym.Expr) string {
+	ren := map[string]sym.Expr{}
+	for i, p := range m.Params {
+		ren[p] = sym.V(sp.Params[i])
+	}
+	for cn, sn := range codeToSpec {
+		ren[cn] = sym.V(sn)
+	}
+	for _, rd := range m.Reads {
+		if i := strings.LastIndex(rd, "."); i >= 0 {
+			ren[rd] = sym.V("cfg:" + rd[i+1:])
+		}
+	}
+	// enumerated inputs: one comparison per combination of constants
+	if len(sp.Enum) > 0 {
+		var names []string
+		for n := range sp.Enum {
+			names = append(names, n)
+		}
+		sort.Strings(names)
+		n0 := names[0]
+		rest := map[string][]string{}
+		for _, n := range names[1:] {
+			rest[n] = sp.Enum[n]
+		}
+		for _, val := range sp.Enum[n0] {
+			sub := map[string]sym.Expr{n0: sym.V("#" + val)}
+			m2 := &dtab.Machine{Params: m.Params, State: m.State, Reads: m.Reads}
+			// substitute in the machine after renaming: done by extending ren on a copy
+			sp2 := sp
+			sp2.Enum = rest
+			if len(rest) == 0 {
+				sp2.Enum = nil
+			}
+			su := map[string]sym.Expr{}
+			for k, v := range specUpd {
+				su[k] = sym.Subst(v, sub)
+			}
+			so := sym.Subst(specOut, sub)
+			for _, pth := range m.Paths {
+				np := &dtab.Path{Updates: map[string]sym.Expr{}, Effects: pth.Effects, Exit: pth.Exit}
+				// the code names of the enumerated input
+				csub := map[string]sym.Expr{}
+				for i, pn := range sp.Params {
+					if pn == n0 {
+						csub[m.Params[i]] = sym.V("#" + val)
+					}
+				}
+				for _, cd := range pth.Conds {
+					np.Conds = append(np.Conds, sym.Subst(cd, csub))
+				}
+				for k, v := range pth.Updates {
+					np.Updates[k] = sym.Subst(v, csub)
+				}
+				for _, r := range pth.Ret {
+					np.Ret = append(np.Ret, sym.Subst(r, csub))
+				}
+				m2.Paths = append(m2.Paths, np)
+			}
+			if msg := c.compareStep(m2, sp2, codeToSpec, su, so); msg != "" {
+				return n0 + "=" + val + ": " + msg
+			}
+		}
+		return ""
+	}
+	keys := map[string]bool{}
+	type cpath struct {
+		conds []sym.Expr
+		cfn   []boolFn
+		upd   map[string]sym.Expr
+		out   sym.Expr
+	}
+	var paths []cpath
+	for _, p := range m.Paths {
+		cp := cpath{upd: map[string]sym.Expr{}}
+		for _, cd := range p.Conds {
+			r := sym.Subst(cd, ren)
+			cp.conds = append(cp.conds, r)
+			cp.cfn = append(cp.cfn, compileB(r))
+			collectCondKeys(r, keys)
+		}
+		for k, v := range p.Updates {
+			cp.upd[codeToSpec[k]] = sym.Subst(v, ren)
+		}
+		if len(p.Ret) == 1 {
+			cp.out = sym.Subst(p.Ret[0], ren)
+		}
+		if len(p.Effects) > 0 {
+			return "the step has effects beyond its remembered values: " + strings.Join(p.Effects, "; ")
+		}
+		paths = append(paths, cp)
+	}
+	for _, e := range specUpd {
+		collectCondKeys(e, keys)
+	}
+	collectCondKeys(specOut, keys)
+	var ks []string
+	for k := range keys {
+		ks = append(ks, k)
+	}
+	sort.Strings(ks)
+	var bs []string
+	for sn := range sp.Bool {
+		bs = append(bs, sn)
+	}
+	sort.Strings(bs)
+	if len(ks) > 10 {
+		return "too many distinct comparisons to enumerate"
+	}
+	total := 1
+	for range ks {
+		total *= 3
+	}
+	for range bs {
+		total *= 2
+	}
+	describe := func(t truth) string {
+		var d []string
+		for _, b := range bs {
+			d = append(d, fmt.Sprintf("%s=%v", b, t.bools[b]))
+		}
+		for _, k := range ks {
+			d = append(d, fmt.Sprintf("%s %s 0", short(k, 40), map[int]string{-1: "<", 0: "=", 1: ">"}[t.sg[k]]))
+		}
+		return strings.Join(d, ", ")
+	}
+	selCache := map[string]selFn{}
+	eqCache := map[string]bool{}
+	for idx := 0; idx < total; idx++ {
+		t := truth{sg: map[string]int{}, bools: map[string]bool{}}
+		x := idx
+		for _, b := range bs {
+			t.bools[b] = x%2 == 1
+			x /= 2
+		}
+		for _, k := range ks {
+			t.sg[k] = x%3 - 1
+			x /= 3
+		}
+		var sel *cpath
+		n := 0
+		for i := range paths {
+			take := true
+			for ci, cf := range paths[i].cfn {
+				v, ok := cf(t)
+				if !ok {
+					return "a condition of the step is not a comparison of its inputs and remembered values: " + sym.String(paths[i].conds[ci])
+				}
+				if !v {
+					take = false
+					break
+				}
+			}
+			if take {
+				sel = &paths[i]
+				n++
+			}
+		}
+		if n != 1 {
+			return "the step is not single-valued when " + describe(t)
+		}
+		same := func(name string, got, want sym.Expr) string {
+			sf, okc := selCache[name]
+			if !okc {
+				sf = compileSel(want)
+				selCache[name] = sf
+			}
+			w, ok := sf(t)
+			if !ok {
+				return "specification not evaluable"
+			}
+			if sp.Bool[name] {
+				gv, ok1 := evalB(got, t)
+				wv, ok2 := evalB(w, t)
+				if !ok1 || !ok2 {
+					return fmt.Sprintf("%s is not a truth value of the comparisons", name)
+				}
+				if gv != wv {
+					return fmt.Sprintf("when %s: %s becomes %v, documented %v", describe(t), name, gv, wv)
+				}
+				return ""
+			}
+			ek := sym.String(got) + "\x00" + sym.String(w)
+			eq, seen := eqCache[ek]
+			if !seen {
+				eq = sym.Equal(got, w)
+				eqCache[ek] = eq
+			}
+			if !eq {
+				return fmt.Sprintf("when %s: %s is %s, documented %s", describe(t), name, sym.CanonString(got), sym.CanonString(w))
+			}
+			return ""
+		}
+		for _, sn := range sp.State {
+			got, has := sel.upd[sn]
+			if !has {
+				got = sym.V(sn)
+			}
+			want, hasW := specUpd[sn]
+			if !hasW {
+				want = sym.V(sn)
+			}
+			if msg := same(sn, got, want); msg != "" {
+				return msg
+			}
+		}
+		if sel.out == nil {
+			return "the step returns no single value"
+		}
+		if msg := same("the result", sel.out, specOut); msg != "" {
+			return msg
+		}
+	}
+	return ""
+}
+
+// liftIte moves conditionals out of the operands of arithmetic and comparisons, so that every
+// comparison is between conditional-free expressions.
+func liftIte(e sym.Expr) sym.Expr {
+	switch x := e.(type) {
+	case sym.Ite:
+		return sym.Ite{Cond: liftIte(x.Cond), A: liftIte(x.A), B: liftIte(x.B)}
+	case sym.Neg:
+		v := liftIte(x.X)
+		if it, ok := v.(sym.Ite); ok {
+			return sym.Ite{Cond: it.Cond, A: liftIte(sym.Neg{X: it.A}), B: liftIte(sym.Neg{X: it.B})}
+		}
+		return sym.Neg{X: v}
+	case sym.Bin:
+		l, r := liftIte(x.L), liftIte(x.R)
+		if it, ok := l.(sym.Ite); ok {
+			return sym.Ite{Cond: it.Cond, A: liftIte(sym.Bin{Op: x.Op, L: it.A, R: r}), B: liftIte(sym.Bin{Op: x.Op, L: it.B, R: r})}
+		}
+		if it, ok := r.(sym.Ite); ok {
+			return sym.Ite{Cond: it.Cond, A: liftIte(sym.Bin{Op: x.Op, L: l, R: it.A}), B: liftIte(sym.Bin{Op: x.Op, L: l, R: it.B})}
+		}
+		return sym.Bin{Op: x.Op, L: l, R: r}
+	case sym.Cmp:
+		l, r := liftIte(x.L), liftIte(x.R)
+		if it, ok := l.(sym.Ite); ok {
+			return sym.Ite{Cond: it.Cond, A: liftIte(sym.Cmp{Op: x.Op, L: it.A, R: r}), B: liftIte(sym.Cmp{Op: x.Op, L: it.B, R: r})}
+		}
+		if it, ok := r.(sym.Ite); ok {
+			return sym.Ite{Cond: it.Cond, A: liftIte(sym.Cmp{Op: x.Op, L: l, R: it.A}), B: liftIte(sym.Cmp{Op: x.Op, L: l, R: it.B})}
+		}
+		return sym.Cmp{Op: x.Op, L: l, R: r}
+	case sym.Logic:
+		as := make([]sym.Expr, len(x.Args))
+		for i, a := range x.Args {
+			as[i] = liftIte(a)
+		}
+		return sym.Logic{Op: x.Op, Args: as}
+	}
+	return e
+}
+
+
+// compiled truth functions: comparison keys are computed once, not per assignment.
+type boolFn func(t truth) (bool, bool)
+
+func compileB(e sym.Expr) boolFn {
+	switch x := e.(type) {
+	case sym.Var:
+		name := x.Name
+		switch name {
+		case "#true":
+			return func(truth) (bool, bool) { return true, true }
+		case "#false":
+			return func(truth) (bool, bool) { return false, true }
+		}
+		return func(t truth) (bool, bool) { v, ok := t.bools[name]; return v, ok }
+	case sym.Cmp:
+		if v, isConst := constCmp(x); isConst {
+			return func(truth) (bool, bool) { return v, true }
+		}
+		k := cmpKey(x)
+		op := x.Op
+		return func(t truth) (bool, bool) {
+			s, ok := t.sg[k.key]
+			if !ok {
+				return false, false
+			}
+			s *= k.orient
+			switch op {
+			case "<":
+				return s < 0, true
+			case "<=":
+				return s <= 0, true
+			case ">":
+				return s > 0, true
+			case ">=":
+				return s >= 0, true
+			case "==":
+				return s == 0, true
+			case "!=":
+				return s != 0, true
+			}
+			return false, false
+		}
+	case sym.Logic:
+		var fs []boolFn
+		for _, a := range x.Args {
+			fs = append(fs, compileB(a))
+		}
+		switch x.Op {
+		case "!":
+			return func(t truth) (bool, bool) { v, ok := fs[0](t); return !v, ok }
+		case "&&":
+			return func(t truth) (bool, bool) {
+				for _, f := range fs {
+					v, ok := f(t)
+					if !ok {
+						return false, false
+					}
+					if !v {
+						return false, true
+					}
+				}
+				return true, true
+			}
+		case "||":
+			return func(t truth) (bool, bool) {
+				for _, f := range fs {
+					v, ok := f(t)
+					if !ok {
+						return false, false
+					}
+					if v {
+						return true, true
+					}
+				}
+				return false, true
+			}
+		}
+	case sym.Ite:
+		c, a, b := compileB(x.Cond), compileB(x.A), compileB(x.B)
+		return func(t truth) (bool, bool) {
+			v, ok := c(t)
+			if !ok {
+				return false, false
+			}
+			if v {
+				return a(t)
+			}
+			return b(t)
+		}
+	}
+	return func(truth) (bool, bool) { return false, false }
+}
+
+// compileSel: a (lifted) conditional expression as a function selecting its leaf.
+type selFn func(t truth) (sym.Expr, bool)
+
+func compileSel(e sym.Expr) selFn {
+	if x, ok := e.(sym.Ite); ok {
+		c, a, b := compileB(x.Cond), compileSel(x.A), compileSel(x.B)
+		return func(t truth) (sym.Expr, bool) {
+			v, ok := c(t)
+			if !ok {
+				return nil, false
+			}
+			if v {
+				return a(t)
+			}
+			return b(t)
+		}
+	}
+	return func(truth) (sym.Expr, bool) { return e, true }
 }
